@@ -117,6 +117,9 @@ type Action struct {
 
 // C16Case is one history over one stub, plus the delays injected at the two yield points.
 type C16Case struct {
+	// Plugin: the type of the plugin object ("" = "all", "nocfg", "nosync", "neither",
+	// "event"; see plugins_test.go): which handler interfaces it implements.
+	Plugin  string   `json:"plugin,omitempty"`
 	Actions []Action `json:"actions"`
 	// DelayWaitCfg / DelayConnClosed: milliseconds slept at the i-th hit (cyclically) of
 	// "stub.start.waitcfg" / "stub.connclosed". Ignored when hooks are compiled out.
@@ -195,7 +198,7 @@ const hugeTimeout = stub.DefaultRegistrationTimeout
 
 // genScript draws a session script. est is the generator's estimate of the registration
 // timeout the stub will have stored when the script runs (ms); it is updated for the next one.
-func genScript(t *rapid.T, h handshake, est *int64) *Script {
+func genScript(t *rapid.T, h handshake, est *int64, plug string) *Script {
 	kinds := []string{"healthy", "healthy", "healthy", "healthy", "cut", "cut", "cut", "cut", "unreachable", "refused", "raw", "raw", "silent", "noconfigure", "regdrop"}
 	if ev.Known(knownD8) {
 		kinds = kinds[:len(kinds)-1]
@@ -253,14 +256,14 @@ func genScript(t *rapid.T, h handshake, est *int64) *Script {
 	if s.Kind != "healthy" && s.Kind != "raw" && !ev.Known(knownD9) {
 		s.Fast = rapid.IntRange(0, 2).Draw(t, "fast") == 0
 	}
-	if s.Kind == "healthy" || s.Kind == "raw" || s.Kind == "cut" {
+	if (s.Kind == "healthy" || s.Kind == "raw" || s.Kind == "cut") && hasHandler(plug, "configure") {
 		delays := []int{0, 0, 0, 0, 0, 0, 0, 5, 50}
 		if before > 0 && before <= 300 {
 			delays = append(delays, 400, 400, 400) // longer than the timeout the stub is believed to hold
 		}
 		s.CfgDelayMs = rapid.SampledFrom(delays).Draw(t, "cfg_delay_ms")
 	}
-	if s.Kind == "healthy" || s.Kind == "raw" {
+	if (s.Kind == "healthy" || s.Kind == "raw") && hasHandler(plug, "configure") {
 		s.CfgFail = rapid.SampledFrom([]string{"", "", "", "", "", "", "error", "badmask"}).Draw(t, "cfg_fail")
 		if s.CfgFail != "" && s.Kind == "raw" {
 			s.CloseAfter = rapid.Bool().Draw(t, "close_after")
@@ -289,7 +292,9 @@ func genScript(t *rapid.T, h handshake, est *int64) *Script {
 		if h.In == "synchronize" && s.Kind == "raw" {
 			s.DoSync = true
 		}
-		s.Hook = h
+		if hasHandler(plug, h.In) {
+			s.Hook = h
+		}
 	}
 	if s.Kind != "unreachable" {
 		s.Sync = rapid.IntRange(0, 2).Draw(t, "sync") == 0
@@ -319,6 +324,7 @@ func genC16(t *rapid.T) C16Case {
 		ops = []string{"start", "start", "start", "start", "start", "stop", "stop", "wait", "wait", "drop", "drop", "probe", "probe", "bulkstop", "bulkstop", "bulkdrop"}
 	}
 	var c C16Case
+	c.Plugin = rapid.SampledFrom([]string{"all", "all", "all", "nocfg", "nocfg", "nosync", "neither", "event"}).Draw(t, "plugin")
 	// a history begins with a Start: Wait is documented for use after Start or Run
 	// the generator's own idea of the history (is the stub up, which registration timeout does
 	// it hold): only used to place the costly and the telling scripts, never by the oracle
@@ -327,7 +333,7 @@ func genC16(t *rapid.T) C16Case {
 	staysUp := func(s *Script) bool {
 		return (s.Kind == "healthy" || s.Kind == "raw") && s.CfgFail == "" && (s.Hook == nil || s.Hook.Call != "stop")
 	}
-	first := genScript(t, h, &est)
+	first := genScript(t, h, &est, c.Plugin)
 	up = staysUp(first)
 	c.Actions = append(c.Actions, Action{Op: "start", Script: first})
 	n := rapid.IntRange(1, 7).Draw(t, "n")
@@ -338,9 +344,9 @@ func genC16(t *rapid.T) C16Case {
 			if a.Op == "start" && up {
 				// answered "already started": no connection, nothing stored
 				scratch := est
-				a.Script = genScript(t, h, &scratch)
+				a.Script = genScript(t, h, &scratch, c.Plugin)
 			} else {
-				a.Script = genScript(t, h, &est)
+				a.Script = genScript(t, h, &est, c.Plugin)
 				up = staysUp(a.Script)
 			}
 		case "stop", "drop", "bulkstop", "bulkdrop":
@@ -479,11 +485,14 @@ func newExec(c C16Case) (*exec, error) {
 		return nil, nil, nil
 	}
 	x.pl.OnClose = func() { x.closes.Add(1) }
-	if err := x.pl.NewStub(rt.Socket, x.dial); err != nil {
+	st, err := stub.New(pluginObject(c.Plugin, x.pl),
+		stub.WithPluginName(x.pl.Name), stub.WithPluginIdx(x.pl.Idx), stub.WithSocketPath(rt.Socket),
+		stub.WithOnClose(func() { x.closes.Add(1) }), stub.WithDialer(x.dial))
+	if err != nil {
 		rt.Stop()
 		return nil, err
 	}
-	x.st = x.pl.Stub
+	x.st = st
 	for _, d := range c.DelayConnClosed {
 		if dd := time.Duration(d) * time.Millisecond; dd > x.maxCCWait {
 			x.maxCCWait = dd
@@ -758,6 +767,26 @@ func errStr(err error) string {
 	return err.Error()
 }
 
+// configuredDuring tells whether the plugin was configured during the Start call that just
+// returned. A plugin with a Configure handler knows (the handler ran). For one without, the
+// stub answers Configure on its own and the wire tells: the raw runtime peer has sent its
+// Configure request, or - towards the adaptation - the proxy has forwarded the runtime->stub
+// stream up to the end of the Configure request (its offset is fixed by the protocol and
+// measured once per process with the "all" plugin).
+func (x *exec) configuredDuring(c0 int32, l *link) bool {
+	if hasHandler(x.c.Plugin, "configure") {
+		return x.cfgs.Load() > c0
+	}
+	if l == nil {
+		return false
+	}
+	if l.peer != nil {
+		return l.peer.cfgSent.Load()
+	}
+	h := measureHandshake()
+	return h.err == nil && l.bytes[r2s].Load() >= h.r2sAtCfg
+}
+
 // startBound is the property's bound for Start: the stub's registration timeout until it is
 // configured, plus its request timeout, plus the slack - taken from the stub's public
 // getters as they stand now (an earlier session's Configure may have changed them) where they
@@ -795,12 +824,12 @@ func (x *exec) doStart(sc Script) *failure {
 	x.pending = &sc
 	x.cfgDelay = time.Duration(sc.CfgDelayMs) * time.Millisecond
 	x.cfgFail = ""
-	rejects := (sc.Kind == "healthy" || sc.Kind == "raw") && (sc.CfgFail == "error" || sc.CfgFail == "badmask")
+	rejects := (sc.Kind == "healthy" || sc.Kind == "raw") && (sc.CfgFail == "error" || sc.CfgFail == "badmask") && hasHandler(x.c.Plugin, "configure")
 	if rejects {
 		x.cfgFail = sc.CfgFail
 	}
 	x.hook = nil
-	if h := validHook(sc); h != nil && !wasUp {
+	if h := validHook(sc); h != nil && !wasUp && hasHandler(x.c.Plugin, h.In) {
 		x.hook = &hookState{spec: *h, done: make(chan struct{})}
 		x.classes["hook:"+h.In+":"+h.Call] = true
 	}
@@ -854,7 +883,7 @@ func (x *exec) doStart(sc Script) *failure {
 		// Start on a started stub: a legal step. It must not claim success for a session it
 		// did not configure.
 		x.classes["start:while-up"] = true
-		if err == nil && x.cfgs.Load() == c0 {
+		if err == nil && !x.configuredDuring(c0, nil) {
 			return hard("Start on an already started stub returned nil without the plugin being configured")
 		}
 		return x.settleUp("start-while-up")
@@ -871,7 +900,11 @@ func (x *exec) doStart(sc Script) *failure {
 		}
 	}
 	if err == nil {
-		if x.cfgs.Load() == c0 {
+		var lk0 *link
+		if connected > 0 {
+			lk0 = x.lastLink()
+		}
+		if !x.configuredDuring(c0, lk0) {
 			return hard("Start (%s) returned nil although the plugin was not configured during the call", desc)
 		}
 		if dialed != 1 {
@@ -1551,6 +1584,13 @@ type histOut struct {
 
 // execOnce runs the history once.
 func execOnce(c C16Case) (out ev.Outcome, f *failure) {
+	if !hasHandler(c.Plugin, "configure") {
+		// configuredDuring needs the offset of the Configure request: measure before this
+		// case's own fixture exists
+		if h := measureHandshake(); h.err != nil {
+			return ev.Outcome{Overloaded: true, Classes: []string{"infra-error"}}, nil
+		}
+	}
 	x, err := newExec(c)
 	if err != nil {
 		return ev.Outcome{Overloaded: true, Classes: []string{"infra-error"}}, nil
@@ -1589,6 +1629,11 @@ func execOnce(c C16Case) (out ev.Outcome, f *failure) {
 		primary = "non-trivial"
 	}
 	out.Classes = []string{primary}
+	pt := c.Plugin
+	if pt == "" {
+		pt = "all"
+	}
+	x.classes["plugin:"+pt] = true
 	keys := make([]string, 0, len(x.classes))
 	for k := range x.classes {
 		keys = append(keys, k)
